@@ -364,14 +364,14 @@ def unit_nontext(ctx, P, correspond=True):
                     trel = {k: [x for x in vs if x in tident.get(k, [])] for k, vs in rel.items()}
                     P.judge(ctx, site + "(non-text identity)", w, pol, eid, tident, {k: v for k, v in trel.items() if v or not rel[k]},
                             dict(rep, unit=unit, best_effort=be))
-                ctx.count("nontext(%s):%s:%s" % (kind, "+".join(types) or "text-only", impl[0]))
+                ctx.count("nontext(%s):%s:%s" % (kind, (types[0] if len(types) == 1 else "several-kinds" if types else "text-only"), impl[0]))
             elif kind == "restrict":
                 got = P.call(w.policy.restrict, copy.deepcopy(ident), eid, w.server.metadata)
                 impl = ["raised"] if isinstance(got, Exn) else ["returns", canon_typed(got)]
                 per["nontext_restrict"].append(dict(id=len(per["nontext_restrict"]), coq=vcase(), impl=impl, show=show))
                 if not isinstance(got, Exn):
                     judge_nt("policy-restrict", pol, eid, ident, got, dict(rep, unit="nontext_restrict"), True)
-                ctx.count("nontext(restrict):%s:%s" % ("+".join(types) or "text-only", impl[0]))
+                ctx.count("nontext(restrict):%s:%s" % ((types[0] if len(types) == 1 else "several-kinds" if types else "text-only"), impl[0]))
             else:
                 rq = [P._ra(rng.choice(NT_NAMES), True)] if rng.random() < 0.3 else []
                 op = [P._ra(nm, False, rng.choice(["uri", "friendly"])) for nm in rng.sample(NT_NAMES, 3)] + [P._ra("o", False)]
@@ -383,7 +383,7 @@ def unit_nontext(ctx, P, correspond=True):
                                                    impl=impl, show=dict(show, required=rq, optional=op)))
                 if not isinstance(got, Exn):
                     judge_nt("policy-filter", pol, eid, ident, got, dict(rep, unit="nontext_pfilter", required=rq, optional=op), True)
-                ctx.count("nontext(filter):%s:%s" % ("+".join(types) or "text-only", impl[0]))
+                ctx.count("nontext(filter):%s:%s" % ((types[0] if len(types) == 1 else "several-kinds" if types else "text-only"), impl[0]))
             ctx.nontriv(("nt", wi, kind, eid, json.dumps(tag_ident(ident), sort_keys=True)))
             if len([s for s in ctx.samples if s.get("unit") == "nontext"]) < 2 and types:
                 ctx.sample(dict(unit="nontext", kind=kind, sp=eid, identity=tag_ident(ident), policy=pol, outcome=impl))
